@@ -38,7 +38,11 @@ CLAIMED["C17"] = {
 }
 
 CLAIMED["C02"] = {
-    "text": "Lean theorems, for all inputs: every text node and the style sheet text are safe character data (no '<', "
+    "text": "Lean theorems, for all inputs: document_is_well_formed — the serialized document (compact or indented) built "
+            "by svgRoot from any fragments, legend and settings is accepted by the XML recognizer of Spec/Xml.lean (subset "
+            "of XML 1.0: balanced matching tags, unique attribute names per tag, quoted values, legal characters and "
+            "references only), proved by mutual induction over the node tree; "
+            "every text node and the style sheet text are safe character data (no '<', "
             "every '&' starts one of six fixed references, only characters XML can represent); every attribute value "
             "renders without quote, '<' or '&' (numbers are digits/sign/point, class tokens are identifiers, the rest "
             "are fixed literals) for the whole document built by svgRoot from any fragments, any legend, any settings; "
@@ -47,9 +51,10 @@ CLAIMED["C02"] = {
             "by rendering the implementation's own fragments in the model; well-formedness of the implementation's "
             "output is additionally judged by expat on hostile inputs in every channel.",
     "note": "Trusted: Lean kernel; hand model of escaping/node building/sauron render validated byte-for-byte by "
-            "correspondence; balanced tags hold by construction of render from a tree (no XML reader in Lean yet), "
-            "checked with expat on the implementation; f32 number formatting outside the model for non-dyadic results.",
-    "technique": "Lean 4 proof (lexical safety + decode/escape round trip) over executable model + byte-level back-end correspondence + expat oracle",
+            "correspondence; the recognizer is a subset of XML 1.0 written by hand (its agreement with expat is "
+            "checked on the implementation's output and on damaged copies); f32 number formatting outside the model "
+            "for non-dyadic results.",
+    "technique": "Lean 4 proof (XML well-formedness of every rendered document + lexical safety + decode/escape round trip) over executable model + byte-level back-end correspondence + expat oracle",
     "design_ref": "5 (C02)",
 }
 CLAIMED["C08"] = {
